@@ -1,6 +1,6 @@
 (** Extraction of the C10 executable model (ExtrOcamlBasic only). *)
 From Coq Require Import Extraction ExtrOcamlBasic.
-From Celer Require Import C10.Csg C10.Logic C10.DeMorgan C10.Run.
+From Celer Require Import C10.Csg C10.Logic C10.DeMorgan C10.Run C10.RunFixed.
 Extraction Language OCaml.
 Set Extraction Output Directory ".".
-Extraction "c10model.ml" empty_tree run_op run_seq run_postfix_tokens run_infix_tokens run_max_depth.
+Extraction "c10model.ml" empty_tree run_op run_seq run_postfix_tokens run_infix_tokens run_max_depth run_op_fx run_seq_fx.
